@@ -155,6 +155,15 @@ def byIndexRead (ext : Ext) (a : Archive) (i : Nat) (password : Option Bytes) :
         pure (.ok (ds, res))
 
 open M in
+/-- `by_name_with_optional_password` followed by reading the entry to the end: look the name up in
+`names_map`, `FileNotFound` when absent, else `by_index_with_optional_password`. -/
+def byNameRead (ext : Ext) (a : Archive) (name : Bytes) (password : Option Bytes) :
+    M (PwResult (Nat × Out Bytes)) :=
+  match a.indexOfName name with
+  | none => throw .fileNotFound
+  | some i => byIndexRead ext a i password
+
+open M in
 /-- `by_index_raw` followed by reading to the end: the undecoded bytes. -/
 def byIndexRaw (a : Archive) (i : Nat) : M (Nat × Bytes) :=
   match a.files[i]? with
